@@ -402,7 +402,9 @@ func (fv *FnV) contractCall(st *State, call *ast.CallExpr, key string, fd *ast.F
 			old := fv.heapGet(st, "$alloc")
 			na := fv.fresh("alloc", "(Array Int Bool)")
 			st.heap["$alloc"] = na
-			st.assume(fmt.Sprintf("(forall ((r!q Int)) (! (=> (select %s r!q) (select %s r!q)) :pattern ((select %s r!q))))", old, na, na))
+			// a fact about the fresh array itself (objects are never de-allocated): asserted globally, so it also
+			// holds on merged paths on which the call is guarded by a short-circuit operand
+			fv.decls = append(fv.decls, fmt.Sprintf("(assert (forall ((r!q Int)) (! (=> (select %s r!q) (select %s r!q)) :pattern ((select %s r!q)))))", old, na, na))
 		}
 	}
 	post := map[string]Val{}
